@@ -307,6 +307,10 @@ def main(argv=None):
 		return 0
 
 	t0 = time.time()
+	if os.path.isdir(REPLAY_DIR):       # replays of earlier runs of this property are stale
+		for fn in os.listdir(REPLAY_DIR):
+			if fn.startswith(pid + '-'):
+				os.unlink(os.path.join(REPLAY_DIR, fn))
 	tasks = mod.plan(args.tier, seed)
 	capped_by_filter = False
 	if args.only:
@@ -368,3 +372,24 @@ def main(argv=None):
 
 if __name__ == '__main__':
 	sys.exit(main())
+
+
+# ---------------------------------------------------------------------------------------------
+# E-enum helper: default vector plus every vector that differs from it in at most d dimensions
+
+def deviations(dims, d):
+	"""dims: dict name -> ordered list of values (first = default).  Yields dicts.  d=None -> full product.
+	The sequential analogue of a preemption bound: 0 deviations, then 1, then 2 ..."""
+	import itertools
+	names = list(dims)
+	if d is None or d >= len(names):
+		for combo in itertools.product(*[dims[n] for n in names]):
+			yield dict(zip(names, combo))
+		return
+	default = {n: dims[n][0] for n in names}
+	for r in range(0, d + 1):
+		for chosen in itertools.combinations(names, r):
+			for combo in itertools.product(*[dims[n][1:] for n in chosen]):
+				v = dict(default)
+				v.update(zip(chosen, combo))
+				yield v
